@@ -4,7 +4,7 @@ import re, zlib
 ID = 'C14'
 PROFILES = ['debug']
 THEOREMS = ['C14_extract', 'C14_binds', 'C14_binds_only', 'C14_rejects_order', 'C14_rejects_pairs', 'C14_rejects_header',
-            'C14_rejects_first', 'C14_rejects_overrun', 'C14_rejects_offset_beyond', 'C14_rejects_duplicate', 'C14_ctx_monotone', 'C14_offsets_witness',
+            'C14_rejects_first', 'C14_rejects_overrun', 'C14_rejects_offset_beyond', 'C14_rejects_duplicate', 'C14_ctx_monotone', 'C14_total', 'C14_total_release', 'C14_offsets_witness',
             'C14_duplicate_witness']
 KIDS = ['C14-offsets-unused', 'C14-duplicate-overwrites']
 RULE = ('object streams of 1..12 objects of every value kind (integers, reals, names, strings, hex strings, booleans, null, '
